@@ -159,25 +159,119 @@ theorem received_prefix_reads_back (w : List Nat) (frames : List (Int × List Na
   rw [hs0] at this
   rw [this]; unfold wAt; simp
 
-/-- Full statements over histories that interleave reads (not closed in this round; the per-operation
-ingredients are `handleData_RI`, `read_fast`, `copy_bytes`, `discard_RI`, `peek_bytes`,
-`closeRead_clears_inbuf`, `read_after_reset`; the exact model is compared byte for byte with the real
-`Read` after every operation in the sm tie). -/
-def ReadsArePrefixStatement : Prop :=
-  ∀ (w : List Nat) (c : Conn) (s : Stream) (spec : NetVerif.Proofs.C30.Spec) (n : Nat),
-    RI w s spec → s.writeOnly = false → isOpen s →
-    let r := QuicStream.read c s n
-    (∃ spec', RI w r.2.1 spec') ∧ pos r.2.1 = pos s + (bytesOf r.2.2).length ∧
-      (∀ i : Nat, i < (bytesOf r.2.2).length → (bytesOf r.2.2)[i]? = wAt w (pos s + i)) ∧ r.2.2 ≠ .panic
+/-- the receive-side history alphabet: a delivered STREAM frame or an application `Read(n)` -/
+inductive ROp where
+  | frame (off : Int) (b : List Nat) (fin : Bool)
+  | read (n : Nat)
 
-/-- the fast-path half of `ReadsArePrefixStatement` -/
-theorem reads_are_prefix_partial (w : List Nat) (c : Conn) (s : Stream) (spec : NetVerif.Proofs.C30.Spec) (n : Nat)
-    (h : RI w s spec) (hw : s.writeOnly = false) (hf : s.inbuf.length > s.inbufoff) :
-    let r := QuicStream.read c s n
-    (∃ spec', RI w r.2.1 spec') ∧ pos r.2.1 = pos s + (bytesOf r.2.2).length ∧
-      (∀ i : Nat, i < (bytesOf r.2.2).length → (bytesOf r.2.2)[i]? = wAt w (pos s + i)) ∧ r.2.2 ≠ .panic := by
-  have := read_fast w c s spec n h hw hf
-  exact ⟨⟨spec, this.1⟩, this.2.1, this.2.2.2.1, this.2.2.2.2⟩
+/-- state: connection counters, the stream, and the concatenation of everything `Read` returned so far -/
+def rstep (st : Conn × Stream × List Nat) : ROp → Conn × Stream × List Nat
+  | .frame off b fin => ((feed (st.1, st.2.1) (off, b, fin)).1, (feed (st.1, st.2.1) (off, b, fin)).2, st.2.2)
+  | .read n => ((QuicStream.read st.1 st.2.1 n).1, (QuicStream.read st.1 st.2.1 n).2.1,
+                st.2.2 ++ bytesOf (QuicStream.read st.1 st.2.1 n).2.2)
+
+/-- every frame of the history carries a slice of the sender's byte sequence `w` -/
+def FramesOf (w : List Nat) (ops : List ROp) : Prop :=
+  ∀ op ∈ ops, match op with | .frame off b _ => FrameOf w off b | .read _ => True
+
+def HInv (w : List Nat) (st : Conn × Stream × List Nat) : Prop :=
+  (∃ spec, RI w st.2.1 spec) ∧ Pre st.2.1 ∧ isOpen st.2.1 ∧ (st.2.2.length : Int) = pos st.2.1 ∧
+    ∀ i : Nat, i < st.2.2.length → st.2.2[i]? = wAt w i
+
+theorem rstep_inv (w : List Nat) (st : Conn × Stream × List Nat) (op : ROp) (h : HInv w st)
+    (hop : match op with | .frame off b _ => FrameOf w off b | .read _ => True) :
+    HInv w (rstep st op) ∧ (∀ n, op = .read n → (QuicStream.read st.1 st.2.1 n).2.2 ≠ .panic) := by
+  obtain ⟨⟨spec, hri⟩, hpre, hopen, hlen, hbytes⟩ := h
+  cases op with
+  | frame off b fin =>
+    have := feed_post w st.1 st.2.1 spec (off, b, fin) hri hpre hopen hop
+    refine ⟨⟨this.1, this.2.1, this.2.2.1, ?_, hbytes⟩, fun n hn => by cases hn⟩
+    show (st.2.2.length : Int) = pos (feed (st.1, st.2.1) (off, b, fin)).2
+    rw [this.2.2.2]; exact hlen
+  | read n =>
+    have hp := read_post w st.1 st.2.1 spec n hri hpre hopen
+    refine ⟨⟨hp.ri, hp.pre, hp.opn, ?_, ?_⟩, fun m hm => by cases hm; exact hp.nopanic⟩
+    · show ((st.2.2 ++ bytesOf (QuicStream.read st.1 st.2.1 n).2.2).length : Int) = pos (QuicStream.read st.1 st.2.1 n).2.1
+      rw [hp.adv, List.length_append]; omega
+    · intro i hi
+      show (st.2.2 ++ bytesOf (QuicStream.read st.1 st.2.1 n).2.2)[i]? = wAt w i
+      by_cases hlt : i < st.2.2.length
+      · rw [List.getElem?_append_left hlt]; exact hbytes i hlt
+      · have hi0 : i < (st.2.2 ++ bytesOf (QuicStream.read st.1 st.2.1 n).2.2).length := hi
+        have hi' : i < st.2.2.length + (bytesOf (QuicStream.read st.1 st.2.1 n).2.2).length := by
+          rw [List.length_append] at hi0; exact hi0
+        rw [List.getElem?_append_right (by omega)]
+        rw [hp.bytes (i - st.2.2.length) (by omega)]
+        congr 1; omega
+
+theorem run_inv (w : List Nat) (ops : List ROp) (hops : FramesOf w ops) :
+    ∀ st, HInv w st → HInv w (ops.foldl rstep st) := by
+  induction ops with
+  | nil => intro st h; exact h
+  | cons op rest ih =>
+    intro st h
+    exact ih (fun o ho => hops o (by simp [ho])) _ (rstep_inv w st op h (hops op (by simp))).1
+
+/-- **In order, without duplication, exactly the sender's bytes — at byte level, for all histories.**
+Take a fresh stream and ANY interleaving of delivered STREAM frames that carry slices of one sender
+byte sequence `w` (any order, duplication, overlap, alignment to the 4096-byte pipe chunks; refused
+frames included) with application reads of any sizes (both the lock-free fast path and the slow path
+through `pipe.copy` / `discardBefore` / `peek`).  Then the concatenation of everything `Read` has
+returned is exactly `w.take p`, where `p` is the read position. -/
+theorem reads_are_prefix (w : List Nat) (ops : List ROp) (hops : FramesOf w ops) (c : Conn) (s : Stream)
+    (h1 : s.inp = Pipe.empty) (h2 : s.inset = []) (h3 : s.inbuf = []) (h4 : s.inbufoff = 0) (ho : isOpen s) :
+    (ops.foldl rstep (c, s, [])).2.2 = w.take (pos (ops.foldl rstep (c, s, [])).2.1).toNat := by
+  have h0 : HInv w (c, s, []) := by
+    refine ⟨⟨_, fresh_RI w s h1 h2 h3 h4⟩, ?_, ho, ?_, fun i hi => by simp at hi⟩
+    · intro x hx hx2
+      have : x < s.inp.start + (s.inbuf.length : Int) := hx2
+      rw [h1, h3] at this; simp [Pipe.empty] at this; omega
+    · show (([] : List Nat).length : Int) = s.inp.start + s.inbufoff
+      rw [h1, h4]; simp [Pipe.empty]
+  obtain ⟨_, _, _, hlen, hbytes⟩ := run_inv w ops hops _ h0
+  generalize (ops.foldl rstep (c, s, [])) = st at *
+  apply List.ext_getElem?
+  intro i
+  rw [List.getElem?_take]
+  by_cases hi : i < st.2.2.length
+  · have hi2 : i < (pos st.2.1).toNat := by omega
+    rw [if_pos hi2, hbytes i hi]
+    unfold wAt; simp
+  · have hi2 : ¬ i < (pos st.2.1).toNat := by omega
+    rw [if_neg hi2]
+    exact List.getElem?_eq_none (by omega)
+
+/-- … and no pipe primitive (`copy`, `peek`, `writeAt`) is ever called outside its window: no `Read` of
+such a history ends in the model's `panic` result. -/
+theorem reads_never_panic (w : List Nat) (ops : List ROp) (hops : FramesOf w ops) (c : Conn) (s : Stream)
+    (h1 : s.inp = Pipe.empty) (h2 : s.inset = []) (h3 : s.inbuf = []) (h4 : s.inbufoff = 0) (ho : isOpen s)
+    (n : Nat) :
+    (QuicStream.read (ops.foldl rstep (c, s, [])).1 (ops.foldl rstep (c, s, [])).2.1 n).2.2 ≠ .panic := by
+  have h0 : HInv w (c, s, []) := by
+    refine ⟨⟨_, fresh_RI w s h1 h2 h3 h4⟩, ?_, ho, ?_, fun i hi => by simp at hi⟩
+    · intro x hx hx2
+      have : x < s.inp.start + (s.inbuf.length : Int) := hx2
+      rw [h1, h3] at this; simp [Pipe.empty] at this; omega
+    · show (([] : List Nat).length : Int) = s.inp.start + s.inbufoff
+      rw [h1, h4]; simp [Pipe.empty]
+  have hinv := run_inv w ops hops _ h0
+  exact (rstep_inv w _ (.read n) hinv trivial).2 n rfl
+
+/-- Still open (stated, not proved): on an open stream satisfying the invariants, `Read(n)` with `n > 0`
+returns at least one byte iff the received set contains the read position … -/
+def ReadAvailableIffStatement : Prop :=
+  ∀ (w : List Nat) (c : Conn) (s : Stream) (spec : NetVerif.Proofs.C30.Spec) (n : Nat),
+    RI w s spec → Pre s → isOpen s → s.writeOnly = false → 0 < n →
+    (0 < (bytesOf (QuicStream.read c s n).2.2).length ↔ Mem s.inset (pos s))
+
+/-- … and reports EOF (alone or with the last bytes) iff a FIN was recorded and the read reaches the
+final size. -/
+def EofIffStatement : Prop :=
+  ∀ (w : List Nat) (c : Conn) (s : Stream) (spec : NetVerif.Proofs.C30.Spec) (n : Nat),
+    RI w s spec → Pre s → isOpen s → s.writeOnly = false →
+    (((QuicStream.read c s n).2.2 = .eof ∨ ∃ b, (QuicStream.read c s n).2.2 = .data b true) ↔
+      (s.insize ≠ -1 ∧ pos (QuicStream.read c s n).2.1 = s.insize ∧
+        ¬ (s.inbuf.length > s.inbufoff) ∧ (s.canRead = true)))
 
 /-- non-vacuity: out-of-order, overlapping frames of `w = [10,11,12,13,14,15]` -/
 example : FrameOf [10, 11, 12, 13, 14, 15] 3 [13, 14, 15] ∧ FrameOf [10, 11, 12, 13, 14, 15] 0 [10, 11, 12, 13] ∧
